@@ -8,8 +8,9 @@
 (* the Bit Machine is exactly this concatenation).                         *)
 (*   JetKnown(name)          the jet is specified here                     *)
 (*   JetOut(name, in)        its output bits, or JetFails                  *)
-(* Names are the crate's: <op>_<n> for n in {1, 8, 16, 32, 64}, plus       *)
-(* verify.  Arithmetic is on bit sequences (TLC's integers are 32 bits).   *)
+(* Names are the crate's: <op>_<n> and <op>_<a>_<b> for word sizes up to   *)
+(* 64 (eq also 256), plus verify: 305 of the 368 Core jets.  Arithmetic is *)
+(* on bit sequences (TLC's integers are 32 bits).                          *)
 (***************************************************************************)
 EXTENDS Integers, Sequences, TLC
 
@@ -47,6 +48,7 @@ MulAcc(a, b, k, acc) ==      \* acc has 2n bits; k runs over the bits of b from 
        IN MulAcc(a, b, k - 1, acc2)
 Mul(a, b) == MulAcc(a, b, Len(b), ZerosN(2 * Len(a)))
 
+Val(b) == LET RECURSIVE V(_) V(k) == IF k = 0 THEN 0 ELSE 2 * V(k - 1) + b[k] IN V(Len(b))      \* short words only
 Widths == {1, 8, 16, 32, 64, 256}
 Name(op, n) == op \o "_" \o ToString(n)
 UnaryOps == {"complement", "is_zero", "is_one", "increment", "decrement", "negate", "some", "all"}
@@ -69,7 +71,8 @@ Parse2(name) ==
   LET hits == {<<op, a, b>> \in TwoOps \X Widths2 \X Widths2 : a # b /\ Name2(op, a, b) = name} IN
   IF hits = {} THEN <<>> ELSE CHOOSE h \in hits : TRUE
 \* one-width families with carry / several operands
-MoreOps == {"full_increment", "full_decrement", "full_multiply", "median"}
+MoreOps == {"full_increment", "full_decrement", "full_multiply", "median", "left_shift", "right_shift", "left_shift_with",
+            "right_shift_with", "left_rotate", "right_rotate", "divide", "modulo", "div_mod", "divides"}
 ParseM(name) ==
   LET hits == {<<op, n>> \in MoreOps \X {8, 16, 32, 64} : Name(op, n) = name} IN
   IF hits = {} THEN <<>> ELSE CHOOSE h \in hits : TRUE
@@ -119,8 +122,37 @@ OutOf2(op, a, b, x) ==
     [] op = "right_extend" -> x \o Rep(x[a], b - a)
 Median(p, q, r) == IF Lt(p, q) THEN (IF Lt(q, r) THEN q ELSE IF Lt(r, p) THEN p ELSE r)
                    ELSE (IF Lt(p, r) THEN p ELSE IF Lt(r, q) THEN q ELSE r)
+\* shift amounts are words of 4 bits (for 8- and 16-bit values) or 8 bits (32, 64): small numbers
+AmtBits(n) == IF n <= 16 THEN 4 ELSE 8
+ShiftL(v, amt, fill) == IF amt < Len(v) THEN SubSeq(v, amt + 1, Len(v)) \o Rep(fill, amt) ELSE Rep(fill, Len(v))
+ShiftR(v, amt, fill) == IF amt < Len(v) THEN Rep(fill, amt) \o SubSeq(v, 1, Len(v) - amt) ELSE Rep(fill, Len(v))
+RotL(v, amt) == LET a == (amt % Len(v)) IN SubSeq(v, a + 1, Len(v)) \o SubSeq(v, 1, a)
+\* restoring long division on bit strings: <<quotient, remainder>>, each Len(x) bits (divisor not zero)
+RECURSIVE DivStep(_, _, _, _, _)
+DivStep(x, y, k, q, r) ==      \* r has Len(x) + 1 bits so that the shifted remainder cannot overflow
+  IF k > Len(x) THEN <<q, Tail(r)>>
+  ELSE LET r1 == Tail(r) \o <<x[k]>>                      \* shift the next bit of x in
+           ge == ~Lt(r1, <<0>> \o y)
+           r2 == IF ge THEN Tail(Sub(r1, <<0>> \o y, 0)) ELSE r1
+       IN DivStep(x, y, k + 1, Append(q, IF ge THEN 1 ELSE 0), r2)
+DivMod(x, y) == DivStep(x, y, 1, <<>>, ZerosN(Len(x) + 1))
 OutOfM(op, n, x) ==
-  CASE op = "full_increment" -> Add(Tail(x), ZerosN(n), x[1])         \* (bit, word) -> (carry, word + bit)
+  CASE op \in {"left_shift", "right_shift", "left_rotate", "right_rotate"} ->
+         LET l == AmtBits(n)  amt == Val(Hi(x, l))  v == Lo(x, n) IN
+         CASE op = "left_shift" -> ShiftL(v, amt, 0)
+           [] op = "right_shift" -> ShiftR(v, amt, 0)
+           [] op = "left_rotate" -> RotL(v, amt)
+           [] OTHER -> RotL(v, (n - (amt % n)) % n)
+    [] op \in {"left_shift_with", "right_shift_with"} ->
+         LET l == AmtBits(n)  fill == x[1]  amt == Val(SubSeq(x, 2, l + 1))  v == Lo(x, n) IN
+         IF op = "left_shift_with" THEN ShiftL(v, amt, fill) ELSE ShiftR(v, amt, fill)
+    [] op \in {"divide", "modulo", "div_mod", "divides"} ->
+         LET a == Hi(x, n)  b == Lo(x, n)  zero == ZerosN(n) IN
+         CASE op = "divide" -> IF b = zero THEN zero ELSE DivMod(a, b)[1]
+           [] op = "modulo" -> IF b = zero THEN a ELSE DivMod(a, b)[2]
+           [] op = "div_mod" -> IF b = zero THEN zero \o a ELSE DivMod(a, b)[1] \o DivMod(a, b)[2]
+           [] OTHER -> Bit((IF a = zero THEN b ELSE DivMod(b, a)[2]) = zero)        \* divides(a, b): a divides b
+    [] op = "full_increment" -> Add(Tail(x), ZerosN(n), x[1])         \* (bit, word) -> (carry, word + bit)
     [] op = "full_decrement" -> Sub(Tail(x), ZerosN(n), x[1])
     [] op = "full_multiply" ->                                          \* ((a, b), (c, d)) -> a * b + c + d on 2n bits
          LET a == SubSeq(x, 1, n)  b == SubSeq(x, n + 1, 2 * n)  c == SubSeq(x, 2 * n + 1, 3 * n)  d == SubSeq(x, 3 * n + 1, 4 * n)
@@ -135,7 +167,6 @@ JetOut(name, x) ==
 
 (* ---- sanity of the definitions themselves (evaluated once by TLC) ---- *)
 B8(k) == [i \in 1..8 |-> (k \div (2 ^ (8 - i))) % 2]
-Val(b) == LET RECURSIVE V(_) V(k) == IF k = 0 THEN 0 ELSE 2 * V(k - 1) + b[k] IN V(Len(b))
 ASSUME \A x \in {0, 1, 7, 128, 200, 255} : \A y \in {0, 1, 9, 127, 255} :
    /\ Val(Add(B8(x), B8(y), 0)) = x + y
    /\ Val(Tail(Sub(B8(x), B8(y), 0))) = (x - y + 256) % 256 /\ Sub(B8(x), B8(y), 0)[1] = (IF x < y THEN 1 ELSE 0)
@@ -144,6 +175,11 @@ ASSUME \A x \in {0, 1, 7, 128, 200, 255} : \A y \in {0, 1, 9, 127, 255} :
    /\ JetOut("le_8", B8(x) \o B8(y)) = Bit(x <= y)
    /\ Val(JetOut("increment_8", B8(x))) = x + 1
    /\ JetOut("max_8", B8(x) \o B8(y)) = B8(IF x > y THEN x ELSE y)
-ASSUME JetKnown("leftmost_16_4") /\ JetKnown("right_extend_8_64") /\ JetKnown("full_multiply_64") /\ ~JetKnown("left_shift_8")
+ASSUME \A x \in {0, 1, 7, 100, 255} : \A y \in {1, 2, 7, 16, 255} :
+   /\ Val(DivMod(B8(x), B8(y))[1]) = (x \div y) /\ Val(DivMod(B8(x), B8(y))[2]) = (x % y)
+   /\ JetOut("divides_8", B8(y) \o B8(x)) = Bit((x % y) = 0)
+ASSUME JetOut("left_shift_8", <<0,0,1,1>> \o B8(255)) = B8(248) /\ JetOut("right_shift_with_8", <<1>> \o <<0,0,1,0>> \o B8(0)) = B8(192)
+ASSUME JetOut("left_rotate_8", <<1,0,0,1>> \o B8(129)) = B8(3) /\ JetOut("right_rotate_8", <<0,0,0,1>> \o B8(129)) = B8(192)
+ASSUME JetKnown("leftmost_16_4") /\ JetKnown("right_extend_8_64") /\ JetKnown("full_multiply_64") /\ JetKnown("left_shift_8") /\ ~JetKnown("div_mod_128_64")
 ASSUME JetKnown("add_32") /\ JetKnown("eq_256") /\ ~JetKnown("all_1") /\ JetKnown("xor_xor_1") /\ ~JetKnown("add_1") /\ ~JetKnown("sha_256_block") /\ JetKnown("verify")
 =============================================================================
